@@ -59,7 +59,9 @@ class FakeBar:
 
 pipe_out = []
 for case in payload.get("pipe_cases", []):
-    cr.GLOBAL_PRIOR_COMB_COUNTS.clear()
+    for _n in dir(cr):
+        if _n.startswith("GLOBAL_PRIOR"):
+            getattr(cr, _n).clear()
     rs = np.random.RandomState(case["seed"])
     cols = case["columns"]
     obs = []
@@ -69,6 +71,11 @@ for case in payload.get("pipe_cases", []):
                 heuristic=case["heuristic"], target_ranking_only=case["target_only"], label_column=case["label"],
                 combination_number_upper_bound=cap, reference_model_JSON="", mi_stratified_sampling_ratio=1.0)
             df = pd.DataFrame({c: [str(v) for v in rs.randint(0, 3, size=case["nrows"])] for c in cols})
+            if case.get("interaction_order", 1) > 1:
+                args.interaction_order = case["interaction_order"]
+                df = cr.compute_combined_features(df, args, FakeBar())
+                if "3mr" in args.heuristic:
+                    df = cr.compute_combined_features(df, args, FakeBar(), True)
             cands = cr.get_combinations_from_columns(df.columns, types.SimpleNamespace(**vars(args)))
             if case.get("reference"):
                 # prior heuristic with a reference model: pairs touching a reference-model feature are not candidates
